@@ -18,14 +18,14 @@ def dropped(fields, tag):
 
 SIG_LOOP = '''invariant
                 keys_ok(), v@ == __v@,
-                forall|i: int| 0 <= i < it.index@ ==> !self.signatures@.contains_key(#[trigger] __v@[i]),
+                forall|i: int| 0 <= i < it.index@ ==> !self.signatures@.contains_key(#[trigger] __v@[i]) /*@C10.signature.signatures-of-file-gone.inv*/,
                 forall|id: LuaSignatureId| #[trigger] self.signatures@.contains_key(id) ==> old(self).signatures@.contains_key(id)
                     && self.signatures@[id] == old(self).signatures@[id],
                 self.in_file_signatures@ == old(self).in_file_signatures@.remove(file_id),'''
 
 PROP_LOOP = '''invariant
                 keys_ok(), v@ == __v@,
-                forall|i: int| 0 <= i < it.index@ ==> !self.property_owners_map@.contains_key(#[trigger] __v@[i]),
+                forall|i: int| 0 <= i < it.index@ ==> !self.property_owners_map@.contains_key(#[trigger] __v@[i]) /*@C10.property.owners-of-file-gone.inv*/,
                 forall|o: LuaSemanticDeclId| #[trigger] self.property_owners_map@.contains_key(o) ==> old(self).property_owners_map@.contains_key(o),
                 self.in_filed_owner@ == old(self).in_filed_owner@.remove(file_id),'''
 
@@ -58,7 +58,7 @@ UNIT = {
         'LuaSignatureIndex': st('signature/mod.rs', 'LuaSignatureIndex'),
         'LuaSignatureIndex::remove': rm(
             'signature/mod.rs', 'LuaSignatureIndex', rules=['hashset-into-iter-vec'], iter_names={0: 'it'}, loops={0: SIG_LOOP},
-            proof=[(r'self\.signatures\.remove\(&signature_id\);\s*\}', 'after', '''proof {
+            proof=[(r'self\.signatures\.(remove|get)\(&signature_id\);\s*\}', 'after', '''proof {
                     assert forall|id: LuaSignatureId| old(self).in_file_signatures@[file_id]@.contains(id) implies !self.signatures@.contains_key(id) by {
                         assert(__v@.to_set().contains(id));
                         let i = choose|i: int| 0 <= i < __v@.len() && __v@[i] == id;
@@ -99,7 +99,7 @@ UNIT = {
         {'name': 'dbindex-skips-diagnostics', 'item': 'DbIndex::remove', 'pattern': r'self\.diagnostic_index\.remove\(file_id\);', 'repl': '', 'expect': r'C10\.DbIndex\.diagnostic_index'},
         {'name': 'dbindex-skips-flow', 'item': 'DbIndex::remove', 'pattern': r'self\.flow_index\.remove\(file_id\);', 'repl': '', 'expect': r'C10\.DbIndex\.flow_index'},
         {'name': 'flow-keeps-cast-cache', 'item': 'LuaFlowIndex::remove', 'pattern': r'self\.signature_cast_cache\.remove\(&file_id\);', 'repl': '', 'expect': r'C10\.flow\.signature_cast_cache'},
-        {'name': 'signature-keeps-signatures', 'item': 'LuaSignatureIndex::remove', 'pattern': r'self\.signatures\.remove\(&signature_id\);', 'repl': '', 'expect': r'C10\.signature'},
+        {'name': 'signature-keeps-signatures', 'item': 'LuaSignatureIndex::remove', 'pattern': r'self\.signatures\.remove\(&signature_id\);', 'repl': 'self.signatures.get(&signature_id);', 'expect': r'C10\.signature'},
         {'name': 'diagnostic-keeps-enabled', 'item': 'DiagnosticIndex::remove', 'pattern': r'self\.file_diagnostic_enabled\.remove\(&file_id\);', 'repl': '', 'expect': r'C10\.diagnostic\.file_diagnostic_enabled'},
         {'name': 'property-keeps-owner-map', 'item': 'LuaPropertyIndex::remove', 'pattern': r'self\.property_owners_map\.remove\(&property_owner_id\)', 'repl': 'self.property_owners_map.get(&property_owner_id)', 'expect': r'C10\.property'},
     ],
